@@ -587,6 +587,12 @@ func (c *Connection) setupConnection() error {
 	if c.queryMode {
 		return nil
 	}
+	// A responder may answer any proposal with a query reply. No version has
+	// been negotiated then (version 0, no version data): like a query-mode
+	// connection this one carries no mini-protocols
+	if c.handshakeVersionData == nil {
+		return nil
+	}
 	// Provide the negotiated protocol version to the various mini-protocols
 	protoOptions.Version = c.handshakeVersion
 	// Start Goroutine to pass along errors from the mini-protocols
